@@ -32,6 +32,10 @@ func init() {
 			r.Notes = append(r.Notes, "replay: "+err.Error())
 			return
 		}
+		if len(rp.Case.Streams) == 0 {
+			sameNameStorm(r, 12000) // the storm has no input: it is replayed as a whole
+			return
+		}
 		for i := 0; i < 20; i++ {
 			for _, v := range judgeC29(rp.Case, int64(i)) {
 				v.Ops, v.Case = rp.Case.strings(), rp.Case
@@ -307,7 +311,7 @@ func checkC29(r *Result, rng *rand.Rand, thorough bool) {
 	if thorough {
 		ncases, reps = 400, 6
 	}
-	r.Rule = "2-4 concurrent request streams (CREATE/MKDIR/WRITE/READ/LOOKUP/REMOVE/RMDIR/RENAME/GETATTR on stream-private names in two shared directories, through the real HandleCall), random yields and delays inside every backend call, several schedules per case; minimal-TTL runs compared reply by reply with each stream's solo run (= every serial order) and final tree with the union; runs with caches enabled checked for crashes, final tree and post-run agreement of handle table and caches with the backend; thorough tier under the race detector"
+	r.Rule = "2-4 concurrent request streams (CREATE/MKDIR/WRITE/READ/LOOKUP/REMOVE/RMDIR/RENAME/GETATTR on stream-private names in two shared directories, through the real HandleCall), random yields and delays inside every backend call, several schedules per case; minimal-TTL runs compared reply by reply with each stream's solo run (= every serial order) and final tree with the union; runs with caches enabled checked for crashes, final tree and post-run agreement of handle table and caches with the backend; thorough tier under the race detector; plus a storm of 8 simultaneous LOOKUPs of one not-yet-handled name (1500 / 12000 fresh names): one handle value for all, one live handle per path"
 	for i := 0; i < ncases; i++ {
 		c := genC29(rng)
 		r.noteCase(fmt.Sprint(c.strings()), true)
@@ -331,6 +335,81 @@ func checkC29(r *Result, rng *rand.Rand, thorough bool) {
 		if i < 1 {
 			r.sample(c.strings())
 		}
+	}
+	rounds := 1500
+	if thorough {
+		rounds = 12000
+	}
+	sameNameStorm(r, rounds)
+}
+
+// sameNameStorm: sharing handles — 8 clients LOOKUP the same name, which has no handle yet, at the same moment
+// (released together by a barrier), for many fresh names. Every serial order gives all of them one and the
+// same handle, and leaves exactly one live handle for the path.
+func sameNameStorm(r *Result, rounds int) {
+	const clients = 8
+	fs := NewRefFS()
+	seedFS(fs, []string{"mkdir /d"})
+	for i := 0; i < rounds; i++ {
+		f, _ := fs.Create(fmt.Sprintf("/d/s%d", i))
+		f.Close()
+	}
+	w := newWorldOn(fs, SrvCfg{AttrTTL: 5 * time.Second})
+	defer w.Close()
+	w.noTrace = true
+	absnfs.VerifClockOff()
+	absnfs.VerifSetMaxHandles(w.srv.NFS, 10*rounds+100)
+	dh, _ := w.handleFor("/d", rootCred())
+	badRounds, orphanRounds := 0, 0
+	var first string
+	for i := 0; i < rounds; i++ {
+		name := fmt.Sprintf("s%d", i)
+		var wg sync.WaitGroup
+		start := make(chan struct{})
+		got := make([]uint64, clients)
+		for k := 0; k < clients; k++ {
+			wg.Add(1)
+			go func(k int) {
+				defer wg.Done()
+				s2 := &Srv{NFS: w.srv.NFS, H: w.srv.H, S: w.srv.S, IP: "127.0.0.1", Port: 700 + k}
+				<-start
+				h, st := s2.Lookup(dh, name, rootCred())
+				if st == 0 {
+					got[k] = h
+				}
+			}(k)
+		}
+		close(start)
+		wg.Wait()
+		same := true
+		for k := 1; k < clients; k++ {
+			if got[k] != got[0] {
+				same = false
+			}
+		}
+		n := 0
+		for _, p := range absnfs.VerifHandleDump(absnfs.VerifFileMap(w.srv.NFS)) {
+			if p == "/d/"+name {
+				n++
+			}
+		}
+		if !same || n != 1 {
+			if !same {
+				badRounds++
+			}
+			if n != 1 {
+				orphanRounds++
+			}
+			if first == "" {
+				first = fmt.Sprintf("round %d: handles handed out for /d/%s: %v; live handles for that path: %d", i, name, got, n)
+			}
+		}
+	}
+	r.noteCase("same-name-lookup-storm", true)
+	r.Histogram["storm-rounds"] += rounds
+	if badRounds > 0 || orphanRounds > 0 {
+		r.violate(Violation{Class: "same-path-two-handles", What: fmt.Sprintf("%d of %d rounds of 8 simultaneous LOOKUPs of one name gave different handles for it, %d left more than one live handle for the path (%s)", badRounds, rounds, orphanRounds, first),
+			Ops: []string{"same-name-lookup-storm"}, Case: c29Case{}})
 	}
 }
 
